@@ -26,6 +26,16 @@ ClassifyFrom(ts, i, valuesOnly, acc) ==
 
 Classify(ts) == ClassifyFrom(ts, 1, FALSE, <<>>)
 
+RECURSIVE OriginFrom(_, _, _, _)
+(* for every item, the index of the token it came from *)
+OriginFrom(ts, i, valuesOnly, acc) ==
+    IF i > Len(ts) THEN acc
+    ELSE LET t == ts[i] IN
+      IF ~valuesOnly /\ Len(t) > 1 /\ t[1] = DASH /\ t[2] # DASH
+      THEN OriginFrom(ts, i + 1, FALSE, acc \o [k \in 1..(Len(t) - 1) |-> i])
+      ELSE OriginFrom(ts, i + 1, valuesOnly \/ t = <<DASH, DASH>>, Append(acc, i))
+Origin(ts) == OriginFrom(ts, 1, FALSE, <<>>)
+
 (* Re-joining classified items gives back the token list: consecutive      *)
 (* short options that came from one cluster cannot be told apart from      *)
 (* separate clusters, so Rejoin is defined on the canonical form where     *)
